@@ -155,12 +155,11 @@ def call(rng, kind, n, ncols, frame, window=None, seed=0, pool=None):
                 zero = []
         e.update(c1=ycol, zero=zero if kind == "resample" else [])
     elif kind == "cover":
-        size = rng.randint(1, n)
+        size = rng.randint(0, n) if rng.random() < 0.7 else rng.randint(0, 3)     # (fewer rows requested than there are groups: an empty sample, as documented by n = size // groups)
         vals = np.asarray(data)[:, ycol - 1]
         keys = sorted(set(vals.tolist()))
         counts = [int((vals == k).sum()) for k in keys]
         size = min(size, min(counts) * len(keys))
-        size = max(size, len(keys))
         out = I.FeatureCoverInjector()(data, colarg(frame, names, ycol), size, random_state=seed % 1000)
         e = base_event(kind, data, out, before)
         e.update(c1=ycol, size=size, keys=[num(k) for k in keys], colsexp=[c for c in labels(data) if c != str(names[ycol - 1])])
